@@ -651,6 +651,11 @@ def run_r13(F, rep, tier, cg=None):
                 seen_ok[base] += 1
                 idioms[idiom] += 1
                 rep.ok(RULE, "%s:ok#%d" % (base, seen_ok[base]), sample={"fn": f, "line": t.get("l"), "idiom": idiom})
+            elif kind == "index" and "Iterator>::next(" in s:
+                # the index is driven by an iterator (an `enumerate()` counter, a zipped position): the prover has no bound for it, but such a counter never exceeds the
+                # length of what it iterates and the mechanism is plainly there - undecided, not reported (a behaviour-preserving `for i in 0..n` -> `iter().enumerate()`
+                # rewrite of a discharged loop would otherwise raise an alarm)
+                rep.note("undecided", "C09-R13: %s: index driven by an iterator position (%s): not decided" % (f, s[:120]))
             else:
                 seen_bad[base] += 1
                 key = "%s#%d" % (base, seen_bad[base])
